@@ -23,7 +23,11 @@ VARIANTS = {
     # the accept/keep decision is taken from gathered diagnostics even when
     # they are not stored
     "nometrics": {"generate_training_metrics": False},
+    # a parameter excluded from preconditioning precedes the preconditioned
+    # ones (index bookkeeping of the per-parameter views)
+    "skipfirst": {"skip_preconditioning_rank_lt": 2},
 }
+SKIPFIRST_SHAPES = {"a_bias": [5], "kernel": [4, 3], "z": [3, 3]}
 EVENTS = ["gA", "gB", "gBig1"]   # gBig1: first leaf times 2^60 (its root fails)
 
 
@@ -55,6 +59,8 @@ def plan(tier, seed):
       if tier == "quick" and var in ("reuse", "fd", "nometrics") and \
           n not in (3, 5):
         continue
+      if var == "skipfirst" and n != 3:
+        continue
       for x64 in ([False] if var == "fd" else   # FD mixes dtypes under x64
                   [True] if tier == "quick" and n not in (3, 5)
                   else [True, False]):
@@ -64,8 +70,10 @@ def plan(tier, seed):
                       "depth": depth, "x64": x64,
                       "profile": {"x64": x64, "devices": 8},
                       "part": "pmap_" + var, "weight": len(Ds)})
-  for var in ["full", "compressed", "reuse"]:
+  for var in ["full", "compressed", "reuse", "skipfirst"]:
     for n in ([3, 5] if tier == "quick" else [1, 3, 5, 6, 7]):
+      if var == "skipfirst" and n != 3:
+        continue
       tasks.append({"name": "sharded/%s/N%d" % (var, n), "kind": "sharded",
                     "variant": var, "n": n, "counts": shard_counts,
                     "meshes": meshes, "depth": depth, "x64": True,
@@ -152,6 +160,8 @@ def run_task(task):
   cfg = dict(VARIANTS[var], best_effort_shape_interpretation=False)
   shapes = tree_with_n_stats(task["n"], compressed=(var in ("compressed",
                                                             "fd")))
+  if var == "skipfirst":
+    shapes = dict(SKIPFIRST_SHAPES)
   alpha = ds.grad_trees(shapes, ["gA", "gB"], (0, 4))
   first = sorted(shapes)[0]
   alpha["gBig1"] = dict(alpha["gA"])
